@@ -10,9 +10,63 @@ NOTE_COMMON = (" Trusted base: go/ssa construction, the symgo interpreter and it
                " Holds only within the stated bounds; see evidence.coverage.outside_bounds.")
 
 CLAIMED = {
+ "C01": dict(
+   text="Bounded symbolic execution of the real toMultiAlign code: one record with symbolic POS, up to O operator types (all nine), lengths and bases is projected exactly (solver verdict over every combination within L<=5/7, O<=2/3, len<=2); overlap precedence over K<=3/4 rows; flank/N/pad/window on an arbitrary raw row; worker + re-ordering writers under every arrival permutation; plus one end-to-end run of ToMultiAlign() on SAM text (biogo parser, 0x4/0x100 filter, goroutines). Bounded, not a proof.",
+   note="Assumes SEQ length matches the CIGAR and the alignment fits in the reference; SAM text grammar only on the one concrete file; --threads interleavings are C12's subject."),
+ "C02": dict(
+   text="The real getOneLinePlusRef/blockToSeqPair/blockToPairwiseAlignment run on a symbolic reference and 1-2 records with symbolic POS/operators/lengths/bases (L<=4/5): equal row lengths, de-gapped reference row = reference, reference gaps exactly at insertion columns, inserted bases in order, and the differential obligation 'query row minus insertion columns == real toMultiAlign --pad row' are discharged on every path; --skip-insertions likewise.",
+   note="Assumes no two records insert at the same reference boundary; file/stdout writing and --omit-reference are printing only and not encoded."),
  "C03": dict(
-   text="Within W<=3 columns x N<=2 queries (thorough: 4x3) and both gap modes, for EVERY choice of reference/query symbols from the 34 accepted characters the bytes written by the real getSNPs+writeOutput equal the text derived from the base-set definition (solver verdict over all values, not sampling). Bounded, not a proof.",
-   note="Assumes records reach getSNPs already encoded by the real encoding tables (done in the harness) and arrive in idx order at the writer (arrival order is C12's subject)." ),
+   text="Within W<=3 columns x N<=2 queries (thorough: 4x3) and both gap modes, for EVERY choice of reference/query symbols from the 34 accepted characters the bytes written by the real getSNPs+writeOutput equal the text derived from the base-set definition; the whole SNPs() command function (readers, goroutines, selects, writer) is also run end to end on symbolic FASTA text.",
+   note="End-to-end unit runs under the deterministic cooperative schedule (schedules: C12)."),
+ "C04": dict(
+   text="For nine annotation layouts built through the real region builders (GenBank location parser included) on a symbolic A/C/G/T reference of length 9, and a query that differs at an arbitrary aligned triplet (thorough: every position) with all 17 symbols, the real GetVariantsPair output satisfies: positions mentioned == positions with disjoint base sets; every aa record names a feature and is the dictionary translation of the codon read along the feature (strand, joins, phase) against an independently written standard table for the reference; every unambiguous amino-acid change is called.",
+   note="The query codon's product is taken from the real codon dictionary, which C17 decides sound and complete against the standard code (compositional). Ungapped alignments; indels are C05."),
+ "C05": dict(
+   text="Gap structure fully symbolic (every cell of both rows base-or-gap, W<=5/7): the real GetVariantsPair indel list equals a running-count column scan in ungapped reference coordinates; inserting a both-gap column anywhere leaves the whole mutation list unchanged (relational, W<=4/5); SAM form: single-record CIGARs with symbolic operators give the indels read off the CIGAR.",
+   note="Bounded widths; multi-record SAM queries are covered through C02/C11."),
+ "C06": dict(
+   text="The real findClosest/findClosestN/rearrangeCatchment with the REAL distance functions on T<=3/4 fully symbolic targets (W<=2): members within -d, documented order (distance, completeness desc, file order), exact size, no better target left out, undefined (NaN) distances never displace defined ones, SNP list/distance of the returned pair, plain closest == -n 1. K and -d are case-split by the solver.",
+   note="Targets reach the finder in file order through a pre-filled channel; fan-out goroutines are exercised only by the end-to-end units of C12/C18/C19."),
+ "C07": dict(
+   text="snp and raw distance equal their definitions for every pair of symbols per column (W<=3/5), are symmetric, raw in [0,1], 0 for identical unambiguous sequences; tn93 equals an independent transcription of Tamura-Nei eq. 7 on every count tuple reachable within W<=4/5 (target holding all four bases), and is NaN/Inf exactly where eq. 7 is undefined.",
+   note="Column classification is symbolic; the closed-form float expression is evaluated by the real code on each path's concrete counts (no symbolic float arithmetic)."),
+ "C08": dict(
+   text="whichWay (bin, distance, threshold) against the column-wise definition for all symbol triples (W<=2/3); balance() for all requested/available sizes 0..3/4 incl. the even-fill rule; checkArgs for all option values; findUpDownCatchment (prefix/order/limits/sizes) and --dist-push (k smallest distances, all map orders) on T targets drawn arbitrarily from a 9-sequence menu with symbolic sizes/dists/no-fill/ignore.",
+   note="Catchment units use the real whichWay/balance as oracles for classification/sizes, each decided separately against its definition."),
+ "C09": dict(
+   text="The whole TopRanking() and List() command functions are executed on symbolic query/target alignments (m=2, n<=2, W<=1/2): the four csv/fasta combinations give byte-identical output with one row per query in query order (catchment and --table forms).",
+   note="CSV model: unquoted fields; one option set (--dist-all); deterministic cooperative schedule."),
+ "C10": dict(
+   text="Real getLines + list writer on a symbolic reference and fully symbolic sequence (W<=5/7, any IUPAC reference W<=3/5): ambiguity ranges are exactly the maximal runs, SNP list/counts equal the definition, runs are well formed and separated, the sequence is reconstructible from the row, and the written row text is as specified.",
+   note="Equal widths assumed (mismatch: C18)."),
+ "C11": dict(
+   text="For symbolic single- and two-record queries (L=4/5) the mutation list of the real sam variants path equals that of the variants path on the toPairAlign FASTA form (real wrap -> real FASTA reader -> real GetVariantsPair), and for insertion-free queries on the toMultiAlign --pad row; the default (non --pad) row is a listed known finding when the query leaves reference ends uncovered.",
+   note="One CDS 1..3 + intergenic rest as annotation; reference from file."),
+ "C12": dict(
+   text="Goroutine schedules, select choices, arrival orders and map iteration orders are symbolic inputs: every command function runs end to end on the engine's cooperative scheduler under every schedule with <=1 (thorough 2) deviations from the default; re-ordering stages under every arrival permutation (n<=4/5); map-ranging code under every iteration order. Output bytes must equal the default-order output.",
+   note="No memory model: data races and preemption between channel operations are NOT covered; counterexamples that fix a schedule are confirmed by deterministic re-execution in the interpreter, not natively."),
+ "C13": dict(
+   text="snps --aggregate on symbolic sequences (N<=2/3) and the shared variants aggregate writer on every subset assignment of a 3/5-mutation pool to 3 sequences (with/without the reference record, --append-snps on/off): each distinct mutation once, frequency = count/n to 9 decimals, kept iff >= threshold for thresholds equal to occurring frequencies, ordered by position.",
+   note="Float frequency compared as the same host expression; counts concrete per path."),
+ "C14": dict(
+   text="For eight layouts rendered as GenBank and as GFF3 text around a symbolic reference, the WHOLE Variants() command (both annotation parsers, location parser, region builders, reader, goroutines, writer) gives identical mutations (up to order at one position) for a symbolic query.",
+   note="Bounded family of annotation texts, not arbitrary text; GFF phase convention as in /repo's resources."),
+ "C15": dict(
+   text="Relational obligations on the real code: toMultiAlign window/pad vs untrimmed row (arbitrary raw row, all s<=e); toPairAlign trim = cut from column of base s to column of base e (arbitrary gapped pair); wrap only re-breaks lines (all widths); variants --start/--end alone or together keep exactly s<=p<=e (both writers); whole Variants() on stdin (hidden reader type, reference first) == file run.",
+   note="Legacy --trim/--trimstart/--trimend reconciliation in cmd/samtoma.go (cobra RunE closure) is NOT covered."),
+ "C16": dict(
+   text="Each of the five real FASTA reading loops on N<=5/7 fully symbolic bytes (every value 0..255; plain-text reader ASCII) either yields records or an error on every feasible path, with no panic and no blocked channel operation; four readers agree on valid files under symbolic layout (line width, case, LF/CRLF, trailing newline, description) with score/counts of the sequence; each documented corruption is rejected by each reader.",
+   note="bufio.Scanner/strings.Fields are engine models (stated in evidence.trusted_base); lines beyond 1 MiB outside."),
+ "C17": dict(
+   text="Finite domain decided outright: one symbolic codon covers all 15^3 IUPAC codons (64 expansions unrolled against an independent standard table): dictionary sound and complete, Translate X/error exactly when absent; complement tables over all 32 characters (set semantics, case, involution, encoded form commutes); string/record reverse-complement on length <=4/6.",
+   note="Upper-case codon symbols (the dictionary's domain)."),
+ "C18": dict(
+   text="Every command function is run end to end on valid inputs turned invalid by each documented corruption (kind, affected record first/middle/last, offending byte symbolic): a non-nil error is returned in every case; sam.checkArgs decided for all 64-bit coordinates.",
+   note="Exit status mapping (cmd/root.go) and cobra parsing are read, not encoded; deterministic cooperative schedule."),
+ "C19": dict(
+   text="Every command function that writes to an io.Writer is run end to end with a writer whose k-th Write fails, k case-split by the solver over every write of the run: a failure is always reported as a returned error; no failure, no error.",
+   note="sam toPairAlign writes to os.Stdout/files it opens itself (not injectable); short writes outside."),
 }
 
 NA_REASON = {}
